@@ -526,6 +526,7 @@ func relayScenario(s *verifsim.Sim) {
 			s.Probe("relay.name-sniffed")
 		} else if hello != nil && hello.name != "" && sniffable && hello.hdr > 0 && firstChunk >= hello.hdr && o.firstDeliverySize >= hello.hdr &&
 			o.allHelloDelivered >= 0 && o.firstDelivered >= 0 && o.allHelloDelivered-o.firstDelivered < sniffTimeout/2 && !o.faultFired &&
+			o.tAccept >= 0 && o.firstDelivered-o.tAccept < sniffTimeout/2 && // dae only waits one sniffing timeout for a first byte
 			(hello.kind != "http" || helloAllAtOnce) {
 			s.Failf("c06-name-missed", "%s: the whole %s (%d bytes, first chunk %d) reached dae within %v of its first byte, yet dae dialled the IP %q instead of %q", desc, hello.kind, len(hello.data), firstChunk, o.allHelloDelivered-o.firstDelivered, o.dialTarget, hello.name)
 			return
